@@ -1,12 +1,12 @@
 #!/bin/bash
 # Runs every hand-written mutant, every revert-of-fix mutant and every seeded change against the check of its
-# property and prints one line per diff plus a summary. Each run uses a scratch copy of /repo under /tmp which is
-# removed afterwards. Usage: selftest/run_all.sh [filter-regex]
+# property and prints one line per diff plus a summary. Each run uses its own scratch copy of /repo under /tmp which is
+# removed afterwards; PAR of them run at a time (default 5). Usage: [PAR=n] selftest/run_all.sh [filter-regex]
 cd /verif
 F=${1:-.}
-ok=0; miss=0; other=0
-for f in selftest/mutants/*.diff seeded/*/patch.diff; do
-  echo "$f" | grep -Eq "$F" || continue
+PAR=${PAR:-5}
+one() {
+  f=$1
   case "$f" in
     seeded/*) p=$(basename $(dirname $f) | cut -d- -f1);;
     *) p=$(basename $f | cut -d- -f1);;
@@ -15,6 +15,10 @@ for f in selftest/mutants/*.diff seeded/*/patch.diff; do
   if [ -f "$(dirname $f)/meta.json" ]; then c=$(python3 -c "import json,sys;print(json.load(open(sys.argv[1]))['check'])" "$(dirname $f)/meta.json"); [ -n "$c" ] && p=$c; fi
   out=$(./selftest/run_mutant.sh "$f" "$p" 2>&1 | head -1)
   echo "$out" | sed "s#MUTANT patch.diff#MUTANT $f#"
-  case "$out" in *DETECTED*) ok=$((ok+1));; *MISSED*) miss=$((miss+1));; *) other=$((other+1));; esac
-done
-echo "SUMMARY detected=$ok missed=$miss other=$other"
+}
+export -f one
+TMP=$(mktemp /tmp/pvrunall.XXXXXX)
+ls selftest/mutants/*.diff seeded/*/patch.diff | grep -E "$F" | xargs -P "$PAR" -I{} bash -c 'one {}' | tee "$TMP"
+ok=$(grep -c "DETECTED" "$TMP"); miss=$(grep -c "MISSED" "$TMP"); tot=$(wc -l < "$TMP")
+echo "SUMMARY detected=$ok missed=$miss other=$((tot-ok-miss))"
+rm -f "$TMP"
